@@ -146,7 +146,9 @@ bool c06_small_op(hp_line *l)
 		lzma_vli vli = 0x5555555555555555ull;
 		size_t ip = 0;
 		lzma_ret ret = lzma_vli_decode(&vli, NULL, in, &ip, n);
-		printf("%d %" PRIu64 " %zu\n", (int)ret, (uint64_t)vli, ip);
+		// on failure the values left in *vli and *in_pos are not part of the contract
+		if (ret == LZMA_OK) printf("%d %" PRIu64 " %zu\n", (int)ret, (uint64_t)vli, ip);
+		else printf("%d - -\n", (int)ret);
 		free(in);
 		return true;
 	}
@@ -207,6 +209,72 @@ bool c06_small_op(hp_line *l)
 		hp_put_hex(buf, bpos);
 		printf("\n");
 		free(buf); free(in);
+		return true;
+	}
+	if (!strcmp(op, "ixd") && l->ntok >= 2) {
+		// index_decode() driven directly (not through lzma_code(), so no LZMA_BUF_ERROR bookkeeping): pieces of the given
+		// lengths, then the rest. -> "<ret>:<consumed> ... | <unpadded>/<uncompressed> ..."
+		size_t n; uint8_t *in = hp_hex(l->tok[1], &n);
+		lzma_stream strm = LZMA_STREAM_INIT;
+		lzma_index *idx = NULL;
+		if (lzma_index_decoder(&strm, &idx, UINT64_MAX) != LZMA_OK) { printf("init-failed\n"); free(in); return true; }
+		size_t pos = 0;
+		int i = 2;
+		lzma_ret ret = LZMA_OK;
+		for (unsigned calls = 0; calls < 1000; ++calls) {
+			size_t want = i < l->ntok ? (size_t)hp_u64(l->tok[i]) : (size_t)-1;
+			bool last = i >= l->ntok;
+			++i;
+			size_t left = n - pos;
+			size_t ain = want > left ? left : want;
+			uint8_t *ib = malloc(ain ? ain : 1);
+			if (ain) memcpy(ib, in + pos, ain);
+			size_t ip = 0, op2 = 0;
+			ret = strm.internal->next.code(strm.internal->next.coder, NULL, ib, &ip, ain, NULL, &op2, 0, LZMA_RUN);
+			printf("%s%d:%zu", calls ? " " : "", (int)ret, ip);
+			pos += ip;
+			free(ib);
+			if (ret != LZMA_OK || last) break;
+		}
+		printf(" |");
+		if (ret == LZMA_STREAM_END && idx != NULL) {
+			lzma_index_iter it;
+			lzma_index_iter_init(&it, idx);
+			bool any = false;
+			while (!lzma_index_iter_next(&it, LZMA_INDEX_ITER_BLOCK)) {
+				printf(" %" PRIu64 "/%" PRIu64, (uint64_t)it.block.unpadded_size, (uint64_t)it.block.uncompressed_size);
+				any = true;
+			}
+			if (!any) printf(" -");
+		} else {
+			printf(" -");
+		}
+		printf("\n");
+		lzma_index_end(idx, NULL);
+		lzma_end(&strm);
+		free(in);
+		return true;
+	}
+	if (!strcmp(op, "l2d") && l->ntok == 2) {
+		// raw LZMA2 decoder (dict 4096) on the whole input -> "<ret> <total_in> <outhex>"
+		size_t n; uint8_t *in = hp_hex(l->tok[1], &n);
+		lzma_options_lzma o;
+		lzma_lzma_preset(&o, 0);
+		o.dict_size = 4096;
+		lzma_filter f[2] = { { LZMA_FILTER_LZMA2, &o }, { LZMA_VLI_UNKNOWN, NULL } };
+		lzma_stream strm = LZMA_STREAM_INIT;
+		if (lzma_raw_decoder(&strm, f) != LZMA_OK) { printf("init-failed\n"); free(in); return true; }
+		size_t cap = 70000 * 4 + n + 16;
+		uint8_t *ob = malloc(cap);
+		strm.next_in = in; strm.avail_in = n;
+		strm.next_out = ob; strm.avail_out = cap;
+		lzma_ret ret;
+		do { ret = lzma_code(&strm, LZMA_FINISH); } while (ret == LZMA_OK);
+		printf("%d %" PRIu64 " ", (int)ret, (uint64_t)strm.total_in);
+		hp_put_hex(ob, (size_t)strm.total_out);
+		printf("\n");
+		lzma_end(&strm);
+		free(ob); free(in);
 		return true;
 	}
 	if ((!strcmp(op, "simple") && l->ntok >= 7) || (!strcmp(op, "delta") && l->ntok >= 6)) {
